@@ -55,7 +55,7 @@ fn dry_variant(spec: &FxSpec) -> Option<(FxSpec, bool)> {
 /// How much an effect amplifies its own f32 rounding noise internally: the EQ mixes its state
 /// variables with coefficients up to 10^(|gain|/20), a resonant filter has gain 1/k at the
 /// corner. The linearity tolerance is scaled by this factor (1 for everything else).
-fn conditioning(spec: &FxSpec, n: usize, sr: u32) -> f32 {
+pub fn conditioning(spec: &FxSpec, n: usize, sr: u32) -> f32 {
 	match spec {
 		FxSpec::Eq { gain_db, .. } => 10f32.powf(gain_db.abs() / 20.0),
 		FxSpec::Filter { resonance, .. } => (1.0 / (2.0 - 1.9 * resonance.clamp(0.0, 1.0))) as f32 + 1.0,
